@@ -41,6 +41,27 @@ pub enum Role {
     Control,
 }
 
+/// what the applications do on every stream
+#[derive(Clone, Copy, Debug, PartialEq, Eq, PartialOrd, Ord)]
+pub enum Mode {
+    /// request of n bytes; the server answers every byte it reads with one byte of its own PRF
+    /// stream (both directions flow at the same time)
+    Echo,
+    /// upload: the client writes the bulk, the server ONLY READS until FIN and then answers with
+    /// `SINK_REPLY` bytes
+    SinkUp,
+    /// download: the client writes `SINK_REPLY` bytes + FIN and then ONLY READS the bulk the server
+    /// sends after that FIN
+    SinkDown,
+}
+
+/// the connection-level window of the bulk receiver in the sink scenarios (its stream windows stay
+/// large: s2n-quic default / quiche 1 MB), so MAX_DATA alone paces the transfer
+pub const SINK_CONN_WINDOWS: [u64; 2] = [4 * 1024, 12 * 1024];
+pub const SINK_TRANSFERS: [usize; 2] = [40 * 1024, 200 * 1024];
+pub const SINK_STREAMS: [usize; 2] = [1, 2];
+pub const SINK_REPLY: usize = 8;
+
 pub const S2N_WINDOWS: [Option<u64>; 3] = [Some(20), Some(1024), None];
 pub const QUICHE_WINDOWS: [u64; 3] = [20, 1024, 1 << 20];
 pub const STREAM_LIMITS: [u64; 2] = [1, 3];
@@ -63,8 +84,17 @@ pub struct Scenario {
     pub stream_limit: u64,
     /// maximum UDP payload either endpoint sends / accepts; also the network's limit
     pub mds: u16,
-    /// bytes of the request and of the response on the first stream
+    /// echo: bytes of the request and of the response on the first stream; sink: total bulk bytes
+    /// (split evenly over the streams)
     pub size: usize,
+    pub mode: Mode,
+    /// sink scenarios: streams the client opens concurrently
+    pub sink_streams: usize,
+    /// s2n-quic connection window when it is decoupled from the stream windows (sink scenarios in
+    /// which s2n-quic receives the bulk)
+    pub s2n_conn_window: Option<u64>,
+    /// quiche initial_max_data when decoupled (sink scenarios in which quiche receives the bulk)
+    pub quiche_conn_window: Option<u64>,
     pub horizon_ms: u64,
     pub base_delay_ms: u64,
     pub linger_ms: u64,
@@ -100,11 +130,57 @@ impl Scenario {
             mds,
             size
         );
-        Scenario { name, role, s2n_window, quiche_window, stream_limit, mds, size, horizon_ms: 120_000, base_delay_ms: 25, linger_ms: 300, seed: 1 }
+        Scenario { name, role, s2n_window, quiche_window, stream_limit, mds, size, mode: Mode::Echo, sink_streams: 0, s2n_conn_window: None, quiche_conn_window: None, horizon_ms: 120_000, base_delay_ms: 25, linger_ms: 300, seed: 1 }
+    }
+    /// a sink scenario: the bulk receiver's connection window `cw` is far below its stream windows
+    /// and below the transfer; the receiving application only reads while the bulk is in flight
+    pub fn sink(role: Role, up: bool, cw: u64, streams: usize, mds: u16, size: usize) -> Scenario {
+        let mut s = Scenario::new(role, None, 1 << 20, 3, mds, size);
+        s.mode = if up { Mode::SinkUp } else { Mode::SinkDown };
+        s.sink_streams = streams;
+        // the receiver is the server for an upload, the client for a download
+        let s2n_receives = match role {
+            Role::S2nServer => up,
+            Role::S2nClient => !up,
+            Role::Control => true,
+        };
+        if s2n_receives {
+            s.s2n_conn_window = Some(cw);
+        } else {
+            s.quiche_conn_window = Some(cw);
+        }
+        s.name = format!(
+            "{}-{}-{}cw{}k-n{}-mds{}-x{}",
+            match role {
+                Role::S2nClient => "s2nC_quicheS",
+                Role::S2nServer => "quicheC_s2nS",
+                Role::Control => "s2nC_s2nS",
+            },
+            if up { "sinkup" } else { "sinkdown" },
+            if s2n_receives { "s2n" } else { "quiche" },
+            cw / 1024,
+            streams,
+            mds,
+            size
+        );
+        s
+    }
+    /// the same script with s2n-quic on both sides (control experiment, not part of any tier)
+    pub fn control(&self) -> Scenario {
+        let mut c = self.clone();
+        c.role = Role::Control;
+        if c.mode != Mode::Echo && c.s2n_conn_window.is_none() {
+            c.s2n_conn_window = c.quiche_conn_window;
+        }
+        c.name = format!("s2nC_s2nS[{}]", self.name);
+        c
     }
     /// streams the client opens: limit 1 -> 2 (the second needs a MAX_STREAMS from the peer),
     /// limit 3 -> 3 concurrently
     pub fn n_streams(&self) -> usize {
+        if self.mode != Mode::Echo {
+            return self.sink_streams;
+        }
         if self.stream_limit == 1 {
             2
         } else {
@@ -114,7 +190,7 @@ impl Scenario {
     pub fn stream_id(&self, i: usize) -> u64 {
         4 * i as u64
     }
-    /// request = response size of the i-th stream
+    /// echo: request = response size of the i-th stream
     pub fn stream_size(&self, i: usize) -> usize {
         if i == 0 {
             self.size
@@ -122,25 +198,50 @@ impl Scenario {
             self.size.min(SECONDARY_STREAM_CAP)
         }
     }
-    pub fn size_of_id(&self, id: u64) -> Option<usize> {
+    /// bytes the client writes on the i-th stream
+    pub fn req_size(&self, i: usize) -> usize {
+        match self.mode {
+            Mode::Echo => self.stream_size(i),
+            Mode::SinkUp => self.size / self.sink_streams,
+            Mode::SinkDown => SINK_REPLY,
+        }
+    }
+    /// bytes the server writes on the i-th stream
+    pub fn resp_size(&self, i: usize) -> usize {
+        match self.mode {
+            Mode::Echo => self.stream_size(i),
+            Mode::SinkUp => SINK_REPLY,
+            Mode::SinkDown => self.size / self.sink_streams,
+        }
+    }
+    fn index_of_id(&self, id: u64) -> Option<usize> {
         if id % 4 == 0 && ((id / 4) as usize) < self.n_streams() {
-            Some(self.stream_size((id / 4) as usize))
+            Some((id / 4) as usize)
         } else {
             None
         }
     }
+    pub fn req_size_of_id(&self, id: u64) -> Option<usize> {
+        self.index_of_id(id).map(|i| self.req_size(i))
+    }
+    pub fn resp_size_of_id(&self, id: u64) -> Option<usize> {
+        self.index_of_id(id).map(|i| self.resp_size(i))
+    }
     pub fn describe(&self) -> String {
         format!(
-            "{} role={:?} s2n_window={:?} quiche_window={} stream_limit={} max_datagram={} transfer={}B streams={} (sizes {:?}) base_delay={}ms horizon={}ms",
+            "{} role={:?} mode={:?} s2n_conn_window={:?} quiche_initial_max_data={:?} s2n_window={:?} quiche_window={} stream_limit={} max_datagram={} transfer={}B streams={} (request/response sizes {:?}) base_delay={}ms horizon={}ms",
             self.name,
             self.role,
+            self.mode,
+            self.s2n_conn_window,
+            self.quiche_conn_window,
             self.s2n_window,
             self.quiche_window,
             self.stream_limit,
             self.mds,
             self.size,
             self.n_streams(),
-            (0..self.n_streams()).map(|i| self.stream_size(i)).collect::<Vec<_>>(),
+            (0..self.n_streams()).map(|i| (self.req_size(i), self.resp_size(i))).collect::<Vec<_>>(),
             self.base_delay_ms,
             self.horizon_ms
         )
@@ -150,6 +251,10 @@ impl Scenario {
         if let Some(v) = self.s2n_window {
             l = l.with_bidirectional_local_data_window(v).unwrap().with_bidirectional_remote_data_window(v).unwrap().with_unidirectional_data_window(v).unwrap();
             l = l.with_data_window(conn_window(v, self.n_streams())).unwrap();
+        }
+        if let Some(cw) = self.s2n_conn_window {
+            // decoupled: connection window far below the (default) stream windows
+            l = l.with_data_window(cw).unwrap();
         }
         l = l.with_max_open_remote_bidirectional_streams(self.stream_limit).unwrap();
         l = l.with_max_open_remote_unidirectional_streams(self.stream_limit).unwrap();
@@ -173,7 +278,7 @@ impl Scenario {
         c.set_max_idle_timeout(30_000);
         c.set_max_recv_udp_payload_size(self.mds as usize);
         c.set_max_send_udp_payload_size(self.mds as usize);
-        c.set_initial_max_data(conn_window(self.quiche_window, self.n_streams()));
+        c.set_initial_max_data(self.quiche_conn_window.unwrap_or(conn_window(self.quiche_window, self.n_streams())));
         c.set_initial_max_stream_data_bidi_local(self.quiche_window);
         c.set_initial_max_stream_data_bidi_remote(self.quiche_window);
         c.set_initial_max_stream_data_uni(self.quiche_window);
@@ -211,18 +316,48 @@ pub fn full_grid() -> Vec<Scenario> {
     out
 }
 
-/// deterministic greedy t-wise cover of the six factors over the feasible grid: every combination
-/// of values of any `t` factors that occurs in the grid occurs in the subset
-pub fn covering_subset(t: usize) -> Vec<Scenario> {
-    let grid = full_grid();
-    let factors = |s: &Scenario| -> [String; 6] {
-        [format!("{:?}", s.role), format!("{:?}", s.s2n_window), format!("{}", s.quiche_window), format!("{}", s.stream_limit), format!("{}", s.mds), format!("{}", s.size)]
-    };
-    // all index subsets of size t
+/// every sink scenario: role x direction of the bulk x receiver's connection window x streams x
+/// datagram size x transfer
+pub fn sink_grid() -> Vec<Scenario> {
+    let mut out = Vec::new();
+    for role in [Role::S2nClient, Role::S2nServer] {
+        for up in [true, false] {
+            for cw in SINK_CONN_WINDOWS {
+                for streams in SINK_STREAMS {
+                    for mds in DATAGRAM_SIZES {
+                        for size in SINK_TRANSFERS {
+                            out.push(Scenario::sink(role, up, cw, streams, mds, size));
+                        }
+                    }
+                }
+            }
+        }
+    }
+    out
+}
+
+fn factors(s: &Scenario) -> Vec<String> {
+    match s.mode {
+        Mode::Echo => vec![format!("{:?}", s.role), format!("{:?}", s.s2n_window), format!("{}", s.quiche_window), format!("{}", s.stream_limit), format!("{}", s.mds), format!("{}", s.size)],
+        _ => vec![
+            format!("{:?}", s.role),
+            format!("{:?}", s.mode),
+            format!("{}", s.s2n_conn_window.or(s.quiche_conn_window).unwrap_or(0)),
+            format!("{}", s.sink_streams),
+            format!("{}", s.mds),
+            format!("{}", s.size),
+        ],
+    }
+}
+
+/// deterministic greedy t-wise cover of the factors of `grid`: every combination of values of any
+/// `t` factors that occurs in the grid occurs in the subset
+pub fn covering_subset(grid: Vec<Scenario>, t: usize) -> Vec<Scenario> {
+    let nf = grid.first().map(|s| factors(s).len()).unwrap_or(0);
     let mut subsets: Vec<Vec<usize>> = Vec::new();
-    for mask in 0u32..64 {
+    for mask in 0u32..(1 << nf) {
         if mask.count_ones() as usize == t {
-            subsets.push((0..6).filter(|i| mask & (1 << i) != 0).collect());
+            subsets.push((0..nf).filter(|i| mask & (1 << i) != 0).collect());
         }
     }
     let tuples_of = |s: &Scenario| -> Vec<(Vec<usize>, Vec<String>)> {
@@ -466,7 +601,7 @@ fn start_s2n_client_app(client: Client, addr: SocketAddr, rec: Rec, scn: Arc<Sce
             joins.push(rx);
             let mut h = handle.clone();
             let rec2 = rec.clone();
-            let size = scn.stream_size(i);
+            let size = scn.req_size(i);
             primary::spawn(with_deadline(format!("s2n-client-stream-{}", i), rec.clone(), CLIENT, deadline_us, async move {
                 match h.open_bidirectional_stream().await {
                     Ok(s) => {
@@ -505,9 +640,12 @@ fn start_s2n_client_app(client: Client, addr: SocketAddr, rec: Rec, scn: Arc<Sce
     }));
 }
 
-/// the s2n-quic server answers every byte it reads with one byte of its own PRF stream (echo
-/// pacing, independent content) and finishes when the request is finished
-async fn s2n_server_stream(stream: PeerStream, rec: Rec) {
+/// Echo: the s2n-quic server answers every byte it reads with one byte of its own PRF stream (echo
+/// pacing, independent content) and finishes when the request is finished.
+/// Sink modes: it ONLY READS until the request's FIN (no application write can wake the connection
+/// meanwhile), then writes the whole response and finishes.
+async fn s2n_server_stream(stream: PeerStream, rec: Rec, scn: Arc<Scenario>) {
+    let paced = scn.mode == Mode::Echo;
     match stream {
         PeerStream::Receive(r) => {
             let id = r.id();
@@ -527,12 +665,16 @@ async fn s2n_server_stream(stream: PeerStream, rec: Rec) {
                         let bad = check_bytes(C2S ^ id, off, &data);
                         rec.app(SERVER, App::Read { stream: id, off, len: data.len(), ok: bad.is_none(), first_bad: bad });
                         off += data.len() as u64;
-                        if w_open {
+                        if w_open && paced {
                             w_open = s2n_write(&mut w, S2C ^ id, &mut woff, data.len(), &rec, SERVER).await;
                         }
                     }
                     Ok(None) => {
                         rec.app(SERVER, App::Eof { stream: id, total: off });
+                        if !paced {
+                            let n = scn.resp_size_of_id(id).unwrap_or(0);
+                            w_open = s2n_write(&mut w, S2C ^ id, &mut woff, n, &rec, SERVER).await;
+                        }
                         break;
                     }
                     Err(e) => {
@@ -551,16 +693,17 @@ async fn s2n_server_stream(stream: PeerStream, rec: Rec) {
     }
 }
 
-fn start_s2n_server_app(mut server: Server, rec: Rec) {
+fn start_s2n_server_app(mut server: Server, rec: Rec, scn: Arc<Scenario>) {
     spawn(async move {
         while let Some(mut connection) = server.accept().await {
             rec.app(SERVER, App::Accepted);
             let rec = rec.clone();
+            let scn = scn.clone();
             spawn(async move {
                 loop {
                     match connection.accept().await {
                         Ok(Some(stream)) => {
-                            spawn(s2n_server_stream(stream, rec.clone()));
+                            spawn(s2n_server_stream(stream, rec.clone(), scn.clone()));
                         }
                         Ok(None) => break,
                         Err(_) => break,
@@ -588,6 +731,8 @@ struct QStream {
     rx_failed: bool,
     tx_failed: bool,
     opened: bool,
+    /// the application queued new data since the last write attempt
+    kick: bool,
 }
 
 fn conn_error(e: Option<&quiche::ConnectionError>) -> Option<(bool, u64, String)> {
@@ -638,7 +783,7 @@ async fn quiche_task(socket: Socket, client_to: Option<SocketAddr>, mut config: 
             }
         }
         for i in 0..scn.n_streams() {
-            streams.insert(scn.stream_id(i), QStream { to_send: scn.stream_size(i) as u64, fin_ready: true, ..Default::default() });
+            streams.insert(scn.stream_id(i), QStream { to_send: scn.req_size(i) as u64, fin_ready: true, ..Default::default() });
         }
     }
 
@@ -713,14 +858,20 @@ async fn quiche_task(socket: Socket, client_to: Option<SocketAddr>, mut config: 
                                     let bad = check_bytes(rx_key ^ id, st.rx_off, &buf[..n]);
                                     rec.app(ep, App::Read { stream: id, off: st.rx_off, len: n, ok: bad.is_none(), first_bad: bad });
                                     st.rx_off += n as u64;
-                                    if ep == SERVER {
+                                    if ep == SERVER && scn.mode == Mode::Echo {
                                         st.to_send += n as u64;
+                                        st.kick = true;
                                     }
                                 }
                                 if fin {
                                     st.rx_fin = true;
                                     if ep == SERVER {
+                                        if scn.mode != Mode::Echo {
+                                            // sink modes: nothing is written before the request's FIN
+                                            st.to_send = scn.resp_size_of_id(id).unwrap_or(0) as u64;
+                                        }
                                         st.fin_ready = true;
+                                        st.kick = true;
                                     }
                                     rec.app(ep, App::Eof { stream: id, total: st.rx_off });
                                     break;
@@ -740,11 +891,25 @@ async fn quiche_task(socket: Socket, client_to: Option<SocketAddr>, mut config: 
                         }
                     }
                 }
-                // write
+                // write — like the quiche example applications: a stream is written when the
+                // application has just queued data for it, when it is first opened (and the peer's
+                // stream limit allows it), or when quiche reports it writable again.  The loop never
+                // pokes a blocked stream: quiche announces DATA_BLOCKED / STREAM_DATA_BLOCKED once
+                // and then waits for the peer's MAX_DATA / MAX_STREAM_DATA (RFC 9000 4.1).
+                let writable: std::collections::BTreeSet<u64> = c.writable().collect();
+                let mut streams_left = c.peer_streams_left_bidi();
                 for (&id, st) in streams.iter_mut() {
                     if st.fin_sent || st.tx_failed {
                         continue;
                     }
+                    let opening = ep == CLIENT && !st.opened;
+                    if opening && streams_left == 0 {
+                        continue;
+                    }
+                    if !(opening || st.kick || writable.contains(&id)) {
+                        continue;
+                    }
+                    st.kick = false;
                     loop {
                         let left = (st.to_send - st.sent) as usize;
                         if left == 0 && !st.fin_ready {
@@ -753,12 +918,15 @@ async fn quiche_task(socket: Socket, client_to: Option<SocketAddr>, mut config: 
                         let n = left.min(4096);
                         let fin = st.fin_ready && n == left;
                         let data = prf_bytes(tx_key ^ id, st.sent, n);
-                        match c.stream_send(id, &data, fin) {
+                        let res = c.stream_send(id, &data, fin);
+                        if opening && !st.opened && !matches!(res, Err(quiche::Error::StreamLimit)) {
+                            // the stream exists now, even if nothing could be buffered yet
+                            st.opened = true;
+                            streams_left = streams_left.saturating_sub(1);
+                            rec.app(ep, App::StreamOpened { stream: id });
+                        }
+                        match res {
                             Ok(w) => {
-                                if !st.opened && ep == CLIENT {
-                                    st.opened = true;
-                                    rec.app(ep, App::StreamOpened { stream: id });
-                                }
                                 if w > 0 {
                                     rec.app(ep, App::Write { stream: id, off: st.sent, len: w });
                                 }
@@ -769,10 +937,9 @@ async fn quiche_task(socket: Socket, client_to: Option<SocketAddr>, mut config: 
                                     break;
                                 }
                                 if w < n || w == 0 {
-                                    break; // out of credit / buffer for now
+                                    break; // out of credit / buffer: wait until quiche reports it writable
                                 }
                             }
-                            // no credit (Done) or no stream credit yet (StreamLimit): try again later
                             Err(quiche::Error::Done) | Err(quiche::Error::StreamLimit) => break,
                             Err(e) => {
                                 st.tx_failed = true;
@@ -867,7 +1034,7 @@ fn start_s2n_server(handle: &Handle, scn: &Arc<Scenario>, rec: &Rec, net: &Arc<M
         .map_err(|x| e(&x))?;
     let addr = server.local_addr().map_err(|x| e(&x))?;
     net.lock().unwrap().server_addr = Some(addr);
-    start_s2n_server_app(server, rec.clone());
+    start_s2n_server_app(server, rec.clone(), scn.clone());
     Ok(addr)
 }
 
